@@ -27,8 +27,8 @@ RULE = ("A case is 2-3 fake nodes (optionally one IGNORED by the load-balancing 
         "Distinct by case digest.")
 ASSUMPTIONS = ["network, clock, executor and event loop are simulated (sim/); Cluster, ControlConnection, Session, pools, "
                "scheduler and _HostReconnectionHandler are the real classes (the handler class is subclassed only to "
-               "record instances, attempts and successes; Cluster.on_remove / on_add are wrapped only to mark when they "
-               "return / start)",
+               "record instances, attempts and successes; Cluster.on_remove / on_add / on_down are wrapped only to mark when they "
+               "return / start / with which arguments they run)",
                "cassandra.cluster.random (event debouncing) is replaced by the constant 0",
                "the three graph default profiles get load-balancing policy instances of their own (by default Cluster wraps the "
                "default profile's policy into them, so one policy object is notified four times per transition)",
@@ -207,6 +207,17 @@ def _run(case, ctx, sim):
             return _orig(self, host, refresh_nodes)
         finally:
             adding_now.remove(host)
+    expecting = {}      # virtual thread id -> expect_host_to_be_down of the Cluster.on_down body it is running
+
+    def on_down_body(self, host, is_host_addition, expect_host_to_be_down=False, _orig=C.Cluster.on_down.__wrapped__):
+        cur = world.current
+        k = cur.id if cur is not None else 0
+        expecting[k] = (expect_host_to_be_down, host.is_currently_reconnecting())     # as seen on entry
+        try:
+            return _orig(self, host, is_host_addition, expect_host_to_be_down)
+        finally:
+            expecting.pop(k, None)
+    sim.patch.set(C.Cluster, "on_down", C.run_in_executor(on_down_body))
     sim.patch.set(C.Cluster, "on_remove", on_remove)
     sim.patch.set(C.Cluster, "on_add", on_add)
     S.fixed_random(sim, [0.0])
@@ -223,7 +234,9 @@ def _run(case, ctx, sim):
 
     class PoolWatcher(S.recording_listener([]).__class__):
         def _put(self, kind, host):
-            notes.append((kind, host, bool(host._currently_handling_node_up)))
+            cur = world.current
+            exp = expecting.get(cur.id if cur is not None else 0, (False, False))
+            notes.append((kind, host, bool(host._currently_handling_node_up), bool(exp[0]), bool(exp[1])))
             if kind in ("up", "add") and policy.distance(host) != HostDistance.IGNORED:
                 for si, s in enumerate(tuple(cluster.sessions)):
                     pool = s._pools.get(host)
@@ -316,10 +329,15 @@ def _run(case, ctx, sim):
                 bad, at = check_sequence(seq, name)
                 if bad:
                     key = ["C25.notify", name, bad]
-                    if name == "listener":
-                        mine = [nt_ for nt_ in notes if nt_[1] is hobj]
-                        if at < len(mine) and mine[at][2]:
+                    mine = [nt_ for nt_ in notes if nt_[1] is hobj]
+                    if name == "listener" and at < len(mine):
+                        if bad == "down-after-down" and mine[at][3]:
+                            # the duplicate came from Cluster.on_down(expect_host_to_be_down=True)
+                            key += ["expected-down", "while-reconnecting" if mine[at][4] else "no-reconnector"]
+                        elif bad != "down-after-down" and mine[at][2]:
                             key.append("during-on_up")      # delivered while Cluster.on_up was handling that host
+                    if name == "policy" and bad == "up-after-remove" and seq[at + 1:at + 2] == ["down"]:
+                        key.append("transient")             # taken back at once (an on_up that had passed its entry test)
                     ctx.fail(key, "%s: %s notifications for one Host object of %s: %r" % (where, name, a, seq))
                     return False
         # removed hosts are never reconnected: no reconnection attempt for the Host object starts after
